@@ -39,6 +39,8 @@ def case_st(draw):
     gap_top = draw(st.integers(0, 3))
     return {"ents": ents, "curdir": draw(st.one_of(st.sampled_from([e["dir"] for e in ents]), st.just(ord("$")))),
             "dest": draw(st.sampled_from(["dest", "dest/", "./dest", "ABS", "ABS/", "dest//", "../top/dest"])),
+            # where the destination directory is and what it is called (one-character and nested names included)
+            "destdir": draw(st.sampled_from(["dest", "dest", "d", "out/d", "o/dd", "x/y/z", "out/d.e"])),
             "cmd": draw(st.sampled_from(["extract-files", "extract-files", "extract-unused", "other"])),
             "gz": draw(st.integers(0, 4)) == 0, "asan": draw(st.integers(0, 5)) == 0}
 
@@ -74,7 +76,8 @@ class C12(CheckBase):
     variants = ("dbg", "asan")
     rule = ("generated catalogues whose 7 name bytes and directory byte range over 0x01-0x7F with a bias to '/', '.', "
             "'..', leading '-', control characters and names such as ../../x, /abs, a/b; every command; destination "
-            "given relative/absolute, with/without trailing slash; sandbox case/top/{img,dest,sibling}+canaries.  "
+            "given relative/absolute, with/without trailing slash, the directory itself called dest, d, out/d, o/dd, "
+            "x/y/z or out/d.e; sandbox case/top/{img,<destination>,sibling}+canaries.  "
             "Oracle: snapshot (path, type, size, SHA-1, mode) of the whole sandbox before and after: image bytes "
             "identical; non-extract commands change nothing; extract commands only create regular files directly "
             "inside dest/.  Exit status is free.  Non-trivial: a name or directory byte that is '/' or a name that is "
@@ -112,7 +115,8 @@ class C12(CheckBase):
         with runtool.Sandbox("c12") as sb:
             top = sb.mkdir("case/top")
             os.makedirs(os.path.join(top, "img"))
-            os.makedirs(os.path.join(top, "dest"))
+            dd = case.get("destdir", "dest")
+            os.makedirs(os.path.join(top, dd))
             os.makedirs(os.path.join(top, "sibling"))
             name = "disc.ssd"
             if case["gz"]:
@@ -126,10 +130,11 @@ class C12(CheckBase):
                 fh.write(data_w)
             # (the canary inside dest/ has a name no DFS file can have -- longer than dir + '.' + 7 characters --
             # because overwriting a file of the same name inside the destination is legitimate)
-            for c in ("canary", "sibling/canary", "dest/canary-in-destination", "../canary-up"):
+            for c in ("canary", "sibling/canary", dd + "/canary-in-destination", "../canary-up") + (
+                    (os.path.dirname(dd) + "/canary-beside-destination",) if "/" in dd else ()):
                 with open(os.path.join(top, c), "wb") as fh:
                     fh.write(b"canary " + c.encode())
-            dest = case["dest"].replace("ABS", os.path.join(top, "dest"))
+            dest = case["dest"].replace("dest", dd).replace("ABS", os.path.join(top, dd))
             root = os.path.join(sb.path, "case")
             before = snapshot(root)
             if case["cmd"] == "other":
@@ -153,8 +158,8 @@ class C12(CheckBase):
                 else:
                     bad = []
                     for k in changed:
-                        ok = (os.path.dirname(k) == "top/dest" and after.get(k, ("",))[0] == "file"
-                              and k != "top/dest/canary-in-destination")
+                        ok = (os.path.dirname(k) == "top/" + dd and after.get(k, ("",))[0] == "file"
+                              and k != "top/" + dd + "/canary-in-destination")
                         if not ok:
                             bad.append(k)
                     if bad:
